@@ -216,7 +216,19 @@ class PTETable:
 
         # Convert string with list of parameters into tuple of numbers.
         # Example: '3, 4' -> (3, 4)
-        params = tuple(int(p) for p in re.findall('[0-9]+', params_str))
+        # The numbers are C integer literals; anything else (a comment, a
+        # macro name) is no parameter number.
+        params = []
+        for token in params_str.split(','):
+            token = token.strip()
+            try:
+                params.append(int(token, 10))
+            except ValueError:
+                try:
+                    params.append(int(token, 0))
+                except ValueError:
+                    pass
+        params = tuple(params)
 
         # Create entry and add to list of entries
         entry = PTETableEntry(pte_pattern, message_format, params, file, line)
